@@ -90,6 +90,9 @@ func (g *Generator) MakeData(typeName string) (any, bool) {
 	g.makeSQL()
 
 	if len(g.data.NameList) == 0 {
+		if g.IsTypeSpecified() {
+			logx.Fatalf("enum type not exists or has no constants: %s", typeName)
+		}
 		return nil, false
 	}
 
